@@ -199,6 +199,12 @@ Definition predict_sub (s : daily_state) (k : string) (T : float) : option (floa
       end
   end.
 
+(* predict's timezone guard, as coded: `str(self.baseline_timezone) != str(reporting_data.tz)` raises ValueError.
+   A fitted model holds the baseline's tzinfo OBJECT, a reloaded one the string str() gave when it was stored; the
+   guard reads both only through str(), i.e. through [ds_tz].  (A guard that also compared the objects would
+   decide differently for the two -- seeded change C01-5; that is observable only on the implementation.) *)
+Definition tz_guard_refuses (s : daily_state) (reporting_tz : string) : bool := negb (String.eqb (ds_tz s) reporting_tz).
+
 (* ---- which sub-model predicts a day: DailyModel._meter_segment through combo_dictionary and the season column.
    A split key is "<days>-<seasons>": days = fw | wd | we, seasons = su / sh / wi joined by "_".
    The month -> season and day -> weekday/weekend maps are those of the model's settings: __init__ derives
